@@ -121,7 +121,9 @@ StepOk(ev, post) ==
     ELSE IF ev.e = "set:substbad"        \* malformed bytes under substitute_invalid: the repaired text (Unicode!RefOut)
          THEN IsLive(pool, ev.a) /\ WriteOk(pool, post, ev.a, RefOut("utf8", "utf8", ev.data, TRUE))
     ELSE IF IsSet(ev) THEN IsLive(pool, ev.a) /\ WriteOk(pool, post, ev.a, ev.data)
-    ELSE IF IsSelfSet(ev) THEN IsLive(pool, ev.a) /\ WriteOk(pool, post, ev.a, SelfValue(ev, pool[ev.a].val))
+    \* (sub = 1: the call passes substitute_invalid - the repaired slice, and never a refusal)
+    ELSE IF IsSelfSet(ev) THEN IsLive(pool, ev.a) /\ WriteOk(pool, post, ev.a, IF ev.sub = 1 THEN RefOut("utf8", "utf8", SelfValue(ev, pool[ev.a].val), TRUE)
+                                                                                  ELSE SelfValue(ev, pool[ev.a].val))
     ELSE CASE ev.e = "construct" -> ~IsLive(pool, ev.a) /\ WriteOk(pool, post, ev.a, ev.data)
            [] ev.e = "copyconstruct" -> ~IsLive(pool, ev.a) /\ IsLive(pool, ev.b) /\ WriteOk(pool, post, ev.a, pool[ev.b].val)
            [] ev.e = "moveconstruct" -> ~IsLive(pool, ev.a) /\ IsLive(pool, ev.b) /\ ev.a # ev.b /\ MoveOk(pool, post, ev.a, ev.b)
@@ -146,11 +148,11 @@ Accept(ev) ==
          [] ev.exc = "unicode_error" ->
                \/ IsThrowOp(ev) /\ ThrowOk(pool, post) /\ ev.argkept # 0
                \* a slice of the string's own bytes that cuts a multi-byte character is malformed: refused, nothing changes
-               \/ IsSelfSet(ev) /\ IsLive(pool, ev.a) /\ ThrowOk(pool, post)
+               \/ IsSelfSet(ev) /\ ev.sub = 0 /\ ev.val = 0 /\ IsLive(pool, ev.a) /\ ThrowOk(pool, post)
                   /\ AnyBad(Items("utf8", SelfValue(ev, pool[ev.a].val)))
                \* once the pool holds non-ASCII bytes (repaired text, slices through a multi-byte character), an operation
                \* that validates may refuse them; what matters here is that the refusal changed nothing
-               \/ ThrowOk(pool, post) /\ \E q \in LiveSlots(pool) : ~AsciiOnly(pool[q].val)
+               \/ ThrowOk(pool, post) /\ (\E q \in LiveSlots(pool) : ~AsciiOnly(pool[q].val)) /\ ~(IsSelfSet(ev) /\ (ev.sub = 1 \/ ev.val = 1))
          [] ev.exc = "bad_alloc" -> ev.fault > 0 /\ FaultOk(pool, post, TargetOf(ev))
          [] OTHER -> FALSE
 
